@@ -433,10 +433,42 @@ static void handle(char *line) {
     if (g_journal) jmark("close-begin");
     ldb_close(g_db); g_db = NULL;
     if (g_journal) jmark("close-end");
-    if (g_cache) { ldb_lru_destroy(g_cache); g_cache = NULL; }
+    if (g_cache) { ldb_lru_destroy(g_cache); g_cache = NULL; g_opt.block_cache = NULL; }
     flush_bg_events();
     if (g_journal) jprint_new();
     printf("close\n");
+  } else if (nf == 2 && !strcmp(f[0], "repair")) {
+    /* repair <variant>: db must be closed.  variant 0: MANIFEST-* and CURRENT removed; 1: only CURRENT removed;
+       2: MANIFEST cut in half; 3: nothing removed (repair of an intact database) */
+    int variant = atoi(f[1]), rc; char **names = NULL; int n, i; char path[1024];
+    if (g_db) { printf("err repair needs a closed db\n"); return; }
+    n = ldb_get_children(g_dir, &names);
+    for (i = 0; i < n; i++) {
+      int is_manifest = !strncmp(names[i], "MANIFEST-", 9), is_current = !strcmp(names[i], "CURRENT");
+      snprintf(path, sizeof(path), "%s/%s", g_dir, names[i]);
+      if ((variant == 0 && (is_manifest || is_current)) || (variant == 1 && is_current)) unlink(path);
+      else if (variant == 2 && is_manifest) { struct stat st; if (stat(path, &st) == 0 && truncate(path, st.st_size / 2) != 0) { /* ignore */ } }
+    }
+    if (n >= 0) ldb_free_children(names, n);
+    rc = ldb_repair(g_dir, &g_opt);
+    printf("repair %d %d\n", variant, rc);
+    g_ndumped = 0;   /* repair may rewrite / renumber tables: dump everything again after the reopen */
+  } else if (nf == 1 && !strcmp(f[0], "dumpall")) {
+    /* contents of every table of the current version (`rfile` lines) + the version: used after a repair */
+    int level; size_t i; ldb_version_t *v;
+    if (!g_db) { printf("err not open\n"); return; }
+    wait_quiescent(); flush_bg_events();
+    ldb_mutex_lock(&g_db->mutex);
+    v = g_db->versions->current;
+    for (level = 0; level < LDB_NUM_LEVELS; level++)
+      for (i = 0; i < v->files[level].length; i++) {
+        const ldb_filemeta_t *fm = v->files[level].items[i];
+        fputc('r', stdout); dump_table(stdout, g_db->dbname, &g_db->options, fm->number, fm->file_size);
+      }
+    ldb_mutex_unlock(&g_db->mutex);
+    printf("repaired-state\n");
+    dump_ver(); 
+    ldb_mutex_lock(&g_db->mutex); dump_mem("mem", g_db->mem); ldb_mutex_unlock(&g_db->mutex);
   } else if (nf == 1 && !strcmp(f[0], "faultmode")) {
     printf("faultmode\n");
   } else if (nf == 2 && !strcmp(f[0], "journal")) {
